@@ -157,6 +157,11 @@ impl SessionEngine {
     pub fn continuities(&self) -> Arc<ContinuityStore> {
         self.continuity_store.clone()
     }
+
+    #[cfg(feature = "verif")]
+    pub fn verif_event_log(&self) -> Arc<EventLog> {
+        self.event_log.clone()
+    }
 }
 
 fn default_data_dir() -> PathBuf {
